@@ -10,7 +10,7 @@
 (* One trace file holds many executions (Config / GConfig ... End).  An       *)
 (* unexplained line ends the validation of its execution only; its line       *)
 (* number and class are collected in `bad'.                                   *)
-EXTENDS LmToProj, TraceLib
+EXTENDS LmToProj, TraceLib, FiniteSetsExt
 VARIABLES l,      \* next line
           run,    \* line of the Config / GConfig of the current execution
           P, T,   \* its parameters and plan
@@ -46,14 +46,6 @@ ParamsOf(r) ==
   ELSE [c |-> EffGeo(r), frames |-> FramesOf(r), segIM |-> -1, tofIM |-> -1, storeP |-> TRUE, storeD |-> FALSE,
         nStore |-> 0, fresh |-> TRUE]
 
-\* the inputs are inside the domain of the specification (otherwise the driver is at fault)
-ConfigOk(r) ==
-  LET tc == TemplGeo(r)  pp == ParamsOf(r) IN
-  /\ l < Len(TraceLog) /\ TraceLog[l + 1].e = "Stream" /\ Len(TraceLog[l + 1].recs) = r.len
-  /\ LegalConfig(tc) /\ ~TruncSingleRD(tc) /\ ~tc.ge
-  /\ LegalFrames(pp)
-  /\ r.e = "Config" => (r.maxSegProc >= -1 /\ (r.segIM = -1 \/ r.segIM >= 1) /\ (r.tofIM = -1 \/ r.tofIM >= 1))
-
 \* what the output projection data says about itself is the documented Michelogram of the effective geometry
 GeomOk(r, c) ==
   /\ r.outMinSeg = c.minSeg /\ r.outMaxSeg = c.maxSeg
@@ -75,19 +67,19 @@ NzBinOk(c, e) == /\ e[1] \in Segs(c) /\ e[5] \in TofBins(c)
 NzJ(c, e) == (e[2] * NViewsOf(c) + e[3]) * NTang(c) + (e[4] - c.minTang) + 1
 NzValid(c, nz) == /\ \A i \in 1..Len(nz) : NzBinOk(c, nz[i])
                   /\ Cardinality({ << nz[i][1], nz[i][2], nz[i][3], nz[i][4], nz[i][5] >> : i \in 1..Len(nz) }) = Len(nz)
+NzKey(c, e) == << e[5], e[1], NzJ(c, e) >>
 \* the recorded output is the machine's output
 NzIsOut(c, nz, out) ==
-  /\ \A i \in 1..Len(nz) : nz[i][6] = 16 * out[nz[i][5]][nz[i][1]][NzJ(c, nz[i])]
-  /\ Cardinality({ x \in UNION { { << k, sg, j >> : j \in 1..SegSize(c, sg) } : << k, sg >> \in TofBins(c) \X Segs(c) } :
-                     out[x[1]][x[2]][x[3]] # 0 }) = Len(nz)
+  /\ Len(nz) = Cardinality(DOMAIN out)
+  /\ \A i \in 1..Len(nz) : NzKey(c, nz[i]) \in DOMAIN out /\ nz[i][6] = 16 * out[NzKey(c, nz[i])]
 \* the recorded output is the abstract histogram whose stored events are II:
 \* every recorded bin holds the sum of the increments of the events the geometry assigns to it, and
 \* every stored event lies in a recorded bin unless the increments in its bin cancel
-SumAt(II, k, sg, j) == SumInc(P, Stream, { i \in II : RS[i].tof = k /\ RS[i].seg = sg /\ RS[i].j = j })
+SumAt(II, key) == SumInc(P, Stream, { i \in II : KeyOf(RS[i]) = key })
 NzIsHist(c, nz, II) ==
-  /\ \A i \in 1..Len(nz) : nz[i][6] = 16 * SumAt(II, nz[i][5], nz[i][1], NzJ(c, nz[i]))
-  /\ \A i \in II : \/ \E q \in 1..Len(nz) : nz[q][5] = RS[i].tof /\ nz[q][1] = RS[i].seg /\ NzJ(c, nz[q]) = RS[i].j
-                   \/ SumAt(II, RS[i].tof, RS[i].seg, RS[i].j) = 0
+  /\ \A i \in 1..Len(nz) : nz[i][6] = 16 * SumAt(II, NzKey(c, nz[i]))
+  /\ \A i \in II : \/ \E q \in 1..Len(nz) : NzKey(c, nz[q]) = KeyOf(RS[i])
+                   \/ SumAt(II, KeyOf(RS[i])) = 0
 AbsLimit == IF TimeMode(P) THEN AbsMax ELSE AbsMaxCount
 StoredMemo(f) == IF Len(Stream) <= AbsLimit THEN StoredIdx(P, Stream, RS, f) ELSE {-1}
 
@@ -115,7 +107,7 @@ HistLine(r) ==
          \* "At least one of store_prompts or store_delayeds should be true"
          ELSE IF ~LegalStore(P) THEN (IF r.err THEN [m EXCEPT !.pc = "failed"] ELSE Rej)
          ELSE IF ~r.err /\ r.segIM = SegIM(P) /\ r.tofIM = TofIM(P) /\ GeomOk(r, P.c)
-              THEN [M0(P.c) EXCEPT !.pc = "newframe"] ELSE Rej
+              THEN M0 ELSE Rej
     [] r.e \in MachineEvents ->
          IF m.pc \in {"stream", "setup", "failed", "done"} \/ LineEv(r) # Expected(T, Len(Stream), m) THEN Rej
          ELSE IF r.e = "R" /\ r.i > 0
@@ -134,21 +126,94 @@ HistLine(r) ==
          ELSE IF m.pc = "endframe" /\ LineEv(r) = Expected(T, Len(Stream), m) /\ ~r.err THEN [m EXCEPT !.pc = "done"] ELSE Rej
     [] OTHER -> Rej
 
-\* gradient executions: GConfig, Stream, Out (histogram of the frame's prompts), Grad ..., End
+(* --------------- exact instances on the explicit-matrix seam --------------- *)
+\* GConfig lines with xm = TRUE carry the system: rows [seg, ax, view, tang, tof, v1, w1, v2, w2, ac] in the
+\* order (TOF bin, segment, axial position, view, tangential position): the row of that bin has weight w1 at
+\* voxel v1 and w2 at voxel v2 (0 = none); lam[v] = exponent of the image value 2^lam[v]; ac = additive
+\* term code: 0 none, 1: equal to the forward projection, 2: three times the forward projection.
+XCfg == TraceLog[run]
+SegSizeBefore(c, sg) == Cardinality({ x \in (c.minSeg..(sg - 1)) \X (0..(2 * c.R)) : x[2] < NumAx(c, x[1]) }) * NViewsOf(c) * NTang(c)
+RowIdx(c, key) == (key[1] - MinTof(c)) * SegSizeBefore(c, c.maxSeg + 1) + SegSizeBefore(c, key[2]) + key[3]
+Log2(x) == CASE x = 1 -> 0 [] x = 2 -> 1 [] x = 4 -> 2
+XmOk(r, c) ==
+  /\ Len(r.lam) = r.nvox /\ Len(r.rows) = NumTof(c) * SegSizeBefore(c, c.maxSeg + 1)
+  /\ \A q \in 1..Len(r.rows) :
+       LET w == r.rows[q] IN
+       /\ w[1] \in Segs(c) /\ w[5] \in TofBins(c) /\ w[2] >= 0 /\ w[2] < NumAx(c, w[1]) /\ w[3] >= 0 /\ w[3] < NViewsOf(c)
+       /\ w[4] >= c.minTang /\ w[4] <= c.maxTang
+       /\ RowIdx(c, NzKey(c, w)) = q
+       /\ w[6] \in 1..r.nvox /\ w[8] \in 0..r.nvox /\ w[8] # w[6] /\ (w[7] + w[9]) \in {1, 2, 4} /\ w[7] >= 1 /\ (w[8] = 0 <=> w[9] = 0)
+       /\ (w[8] # 0 => r.lam[w[8]] = r.lam[w[6]])
+       /\ w[10] \in 0..2 /\ (w[10] = 0 <=> ~r.hasAdd)
+RowOfKey(key) == XCfg.rows[RowIdx(P.c, key)]
+Weight(w, v) == (IF w[6] = v THEN w[7] ELSE 0) + (IF w[8] = v THEN w[9] ELSE 0)
+\* forward projection of the image + additive term = 2^QExp
+QExp(w) == XCfg.lam[w[6]] + Log2(w[7] + w[9]) + w[10]
+ViewOfKey(c, key) == ((key[3] - 1) \div NTang(c)) % NViewsOf(c)
+\* subsets are views modulo the number of subsets (trivial symmetries)
+\* data term: sum over the stored prompts e of the subset of  P[bin(e)][v] / (P lambda + a)[bin(e)], in units 2^-k
+XData(sub, k) ==
+  [v \in 1..XCfg.nvox |->
+     FoldSet(LAMBDA i, acc : acc + (IF ViewOfKey(P.c, KeyOf(RS[i])) % XCfg.numSubsets = sub
+                                    THEN Weight(RowOfKey(KeyOf(RS[i])), v) * 2 ^ (k - QExp(RowOfKey(KeyOf(RS[i])))) ELSE 0), 0, I)]
+\* sensitivity: back projection of ones over all bins of the subset (all TOF bins: "the TOF kernel sums to 1")
+XSens(sub, k) ==
+  [v \in 1..XCfg.nvox |->
+     FoldSet(LAMBDA q, acc : acc + (IF XCfg.rows[q][3] % XCfg.numSubsets = sub THEN Weight(XCfg.rows[q], v) * 2 ^ k ELSE 0), 0, 1..Len(XCfg.rows))]
+SeqIs(q, f, n) == Len(q) = n /\ \A v \in 1..n : q[v] = f[v]
+XExpected(r) == IF r.e = "Sens" THEN XSens(r.subset, r.k)
+                ELSE IF r.plusSens THEN XData(r.subset, r.k)
+                ELSE [v \in 1..XCfg.nvox |-> XData(r.subset, r.k)[v] - XSens(r.subset, r.k)[v]]
+
+\* the inputs are inside the domain of the specification (otherwise the driver is at fault)
+ConfigOk(r) ==
+  LET tc == TemplGeo(r)  pp == ParamsOf(r) IN
+  /\ l < Len(TraceLog) /\ TraceLog[l + 1].e = "Stream" /\ Len(TraceLog[l + 1].recs) = r.len
+  /\ LegalConfig(tc) /\ ~TruncSingleRD(tc) /\ ~tc.ge
+  /\ LegalFrames(pp)
+  /\ r.e = "Config" => (r.maxSegProc >= -1 /\ (r.segIM = -1 \/ r.segIM >= 1) /\ (r.tofIM = -1 \/ r.tofIM >= 1))
+  /\ r.e = "GConfig" => (r.numSubsets >= 1 /\ (r.xm => XmOk(r, tc)))
+
+\* gradient executions: GConfig, Stream, Out (histogram of the frame's prompts), Sens ..., Grad ..., End
+\* "The gradient of the list-mode Poisson log-likelihood equals the gradient of the projection-data
+\*  log-likelihood of the histogrammed data with the same model":
+\*   Sens:  the (subset) sensitivities of the two objective functions agree,
+\*   Grad, plusSens: the data terms (gradient plus sensitivity) agree,
+\*   Grad, not plusSens: the gradients agree.
+\* Exact instances (xm): both must be exactly what TLC computes from the event list and the matrix.
+\* Ray-tracing matrix: observation against observation in fixed point (GradAgree).  There, for TOF data, the
+\*   projection-data objective subtracts its sensitivity in projection space with the TOF projector while
+\*   both classes document the non-TOF sensitivity as an approximation ("the TOF kernel sums to 1"), so the
+\*   full gradient is claimed for non-TOF data only.
+FullGradientClaimed(c) == NumTof(c) = 1
+GradOk(r) ==
+  IF XCfg.xm THEN r.k >= 6 /\ SeqIs(r.lm, XExpected(r), XCfg.nvox) /\ SeqIs(r.pd, XExpected(r), XCfg.nvox)
+  ELSE (r.e = "Sens" \/ r.plusSens \/ FullGradientClaimed(P.c)) => GradAgree(r.lm, r.pd)
 GradLine(r) ==
   CASE r.e = "Stream" -> IF m.pc = "stream" /\ l = run + 1 THEN [m EXCEPT !.pc = "g-hist"] ELSE Rej
-    [] r.e = "Out" -> IF m.pc = "g-hist" /\ NzValid(P.c, r.nz) /\ NzIsHist(P.c, r.nz, I) THEN [m EXCEPT !.pc = "g-grad"] ELSE Rej
-    \* "The gradient of the list-mode Poisson log-likelihood equals the gradient of the projection-data
-    \*  log-likelihood of the histogrammed data with the same model"
-    [] r.e = "Grad" -> IF m.pc = "g-grad" /\ GradAgree(r.lm, r.pd) THEN m ELSE Rej
+    [] r.e = "Out" -> IF m.pc = "g-hist" /\ NzValid(P.c, r.nz) /\ (I # {-1} => NzIsHist(P.c, r.nz, I)) THEN [m EXCEPT !.pc = "g-grad"] ELSE Rej
+    [] r.e \in {"Sens", "Grad"} -> IF m.pc = "g-grad" /\ r.subset \in 0..(XCfg.numSubsets - 1) /\ GradOk(r) THEN m ELSE Rej
     [] r.e = "End" -> IF m.pc = "g-grad" /\ ~r.err THEN [m EXCEPT !.pc = "done"] ELSE Rej
     [] OTHER -> Rej
 
 \* An unexplained line is attributed to a known finding only by its signature (known_findings.jsonl):
 \* C14-unmarked-frame: the frame contains no time mark (the mark that ended the search for its start lies
-\* at or after its end) and the implementation goes on reading events instead of saving an empty frame.
+\*   at or after its end) and the implementation goes on reading events instead of saving an empty frame.
+\* C14-lmgrad-serial: the list-mode data term is identically zero although the projection-data one is not
+\*   (builds without OpenMP never add the per-thread image to the result).
+\* C14-lmadd-tof: TOF data with an additive term, data terms differ (the additive term of the last TOF bin
+\*   is used for every event).
+\* On exact instances the projection-data side must in addition be what TLC computes.
+AllZero(q) == \A i \in 1..Len(q) : q[i] = 0
 Classify(r) ==
-  IF run > 0 /\ TraceLog[run].e = "Config" /\ m.pc = "read" /\ m.empty /\ r.e = "R" THEN "C14-unmarked-frame" ELSE "new"
+  IF run = 0 THEN "new"
+  ELSE IF TraceLog[run].e = "Config"
+       THEN (IF m.pc = "read" /\ m.empty /\ r.e = "R" THEN "C14-unmarked-frame" ELSE "new")
+       ELSE IF r.e = "Grad" /\ m.pc = "g-grad" /\ r.plusSens /\ Len(r.lm) = Len(r.pd) /\ r.subset \in 0..(XCfg.numSubsets - 1)
+                 /\ (XCfg.xm => SeqIs(r.pd, XExpected(r), XCfg.nvox))
+            THEN (IF AllZero(r.lm) /\ ~AllZero(r.pd) THEN "C14-lmgrad-serial"
+                  ELSE IF NumTof(P.c) > 1 /\ XCfg.hasAdd THEN "C14-lmadd-tof" ELSE "new")
+            ELSE "new"
 
 Idle == [pc |-> "idle"]
 Init == l = 1 /\ run = 0 /\ P = << >> /\ T = << >> /\ m = Idle /\ I = {} /\ bad = << >>
